@@ -176,6 +176,46 @@ func propG(c GCase) error {
 		if keptData, err := json.Marshal(kept); err != nil || !bytes.Equal(keptData, data) {
 			return fmt.Errorf("the *Geometry returned by geojson.Encode, marshalled after another encoding: %s, %v; Marshal gave %s", clip(string(keptData)), err, clip(string(data)))
 		}
+		// ... and it is the caller's: written over (the raw coordinates in place, then every
+		// field), it leaves nothing behind for the next encoding of the same or of an EMPTY
+		// geometry
+		scrawl := func(gg *geojson.Geometry) {
+			if gg == nil {
+				return
+			}
+			if gg.Coordinates != nil {
+				for i := range *gg.Coordinates {
+					(*gg.Coordinates)[i] = '7'
+				}
+				*gg.Coordinates = append(*gg.Coordinates, "77"...)
+			}
+			if gg.Geometries != nil {
+				for i := range *gg.Geometries {
+					(*gg.Geometries)[i] = '7'
+				}
+			}
+			if gg.BBox != nil {
+				*gg.BBox = json.RawMessage("[7]")
+			}
+			gg.Type = "Scrawl"
+		}
+		scrawl(kept)
+		for _, e := range []geom.T{geom.NewPointEmpty(geom.XY), geom.NewLineString(geom.XYZ), geom.NewPolygon(geom.XY), geom.NewMultiPoint(geom.XY), geom.NewGeometryCollection()} {
+			if eg, err := geojson.Encode(e); err == nil {
+				scrawl(eg)
+			}
+		}
+		if again, err := geojson.Marshal(t); err != nil || !bytes.Equal(again, data) {
+			return fmt.Errorf("geojson.Marshal after the caller wrote over the *Geometry values returned by earlier Encode calls: %s, %v; want %s", clip(string(again)), err, clip(string(data)))
+		}
+		for _, e := range []struct {
+			t    geom.T
+			want string
+		}{{geom.NewLineString(geom.XY), `{"type":"LineString","coordinates":[]}`}, {geom.NewMultiPoint(geom.XY), `{"type":"MultiPoint","coordinates":[]}`}, {geom.NewPolygon(geom.XY), `{"type":"Polygon","coordinates":[]}`}} {
+			if eb, err := geojson.Marshal(e.t); err != nil || string(eb) != e.want {
+				return fmt.Errorf("geojson.Marshal of a new %T after the caller wrote over earlier Encode results: %s, %v; want %s", e.t, eb, err, e.want)
+			}
+		}
 		// decoding is total on whatever was emitted
 		var back geom.T
 		var derr error
@@ -270,6 +310,20 @@ func propG(c GCase) error {
 		}
 		if d := diffJSON(exp, bmAgain); d != "" {
 			return fmt.Errorf("the geometry returned by geojson.Unmarshal changed when other documents were decoded afterwards: %s", d)
+		}
+		// ... and the caller may do to it what it likes: every ordinate overwritten, EMPTY
+		// points given coordinates, SRIDs changed; the same document decodes as before
+		model.Spoil(back)
+		var again geom.T
+		if err := geojson.Unmarshal(data, &again); err != nil {
+			return fmt.Errorf("geojson.Unmarshal of the same document after the caller overwrote the geometry decoded from it before: %v", err)
+		}
+		am, err := model.FromGeom(again)
+		if err != nil {
+			return fmt.Errorf("decoded again after the caller overwrote the earlier result: %v", err)
+		}
+		if d := diffJSON(exp, am); d != "" {
+			return fmt.Errorf("the same document decodes differently after the caller overwrote the geometry decoded from it before: %s", d)
 		}
 		// the geometry at the bottom of a tower of nested collections
 		if c.Deep > 0 {
